@@ -431,16 +431,7 @@ def r_C03de_C11a_C17bc(root):
     ld = next((c for c in calls(lm) if callee_name(c) == "internal_model_from_file"), None)
     pol = {a.replace(" ", ""): p for a, p in sem.info(lm).atoms_at(ld)} if ld else {}
     if not (ld and pol.get("self.all_models.has_model(filename)") is False): out.append(Finding("C17", "C17.b", S, "GlobalModelRepository.load_model", ast.unparse(stmt_of(ld))[:60] if ld else "", "file is loaded although it is already in the shared repository"))
-    P = "textx/scoping/providers.py"; ic = find_i(root, P, "ImportURI.__call__"); inst += 1
-    seq = []
-    for c in [c for c in calls(ic, own=True) if ast.unparse(c.func) == "self.scope_provider"]:
-        a0 = ast.unparse(c.args[0]); src = a0
-        if a0 != "obj":
-            lp = next((a for a in ancestors(c) if isinstance(a, ast.For)), None); src = ast.unparse(lp.iter) if lp else a0
-        nid = sem.info(ic).node_of(c)
-        seq.append((nid.id if nid is not None else c.lineno, "own" if a0 == "obj" else "local" if "local_models" in src else "builtin" if "builtin_models" in src else src))
-    order = [k for _, k in sorted(seq)]
-    if order != ["own", "local", "builtin"]: out.append(Finding("C17", "C17.c", P, "ImportURI.__call__", str(order), "lookup order must be: own model, loaded models, builtin models"))
+    # C17.c (lookup order of ImportURI) is decided by evaluation: C17.n, sa/rules/c17e.py
     return inst, out
 ALL = [r_C09, r_C08_C34, r_C13, r_C07, r_C05_C10, r_C02cd, r_C16a, r_C28b_C33b_C30bc, r_C03de_C11a_C17bc]
 if __name__ == "__main__":
